@@ -1,7 +1,8 @@
-(* FADT: for every constructor argument and every finite sequence of builder calls, the finalized image sums to 0 and
-   its Length field (offset 4) is its size, 276; the flag law: the Flags field (offset 112 of the image) is the N.lor-fold of
-   the bits of the flag() calls made, whatever their order and repetitions and whatever other builder calls are interleaved,
-   and flag() changes no other field. *)
+(* FADT: for every constructor argument and every finite sequence of builder calls and direct assignments of the public body
+   fields (ops 10 / 11 of Spec/FadtS.v), the finalized image sums to 0 and its Length field (offset 4) is its size, 276;
+   the flag law: the Flags field (offset 112 of the image) is the value of the LAST direct assignment of `flags` (0 when the
+   field was never assigned) OR-ed with the bits of the flag() calls made AFTER that assignment, whatever their order and
+   repetitions and whatever other calls and assignments are interleaved, and flag() changes no other field. *)
 From Coq Require Import NArith ZArith List Lia Bool Arith.
 From ACPI Require Import Lib.Bytes Lib.Sx Lib.Machine Impl.Checksum Impl.Table Impl.Fields Impl.Run Impl.Madt Impl.Gas Impl.Fadt
   Spec.Layout Proofs.ChecksumP Proofs.TableP Proofs.MadtP.
@@ -118,7 +119,7 @@ Proof.
   destruct (sx_num r); [|discriminate]. cbn [option_bind]. intros H; inversion H; subst; clear H. reflexivity.
 Qed.
 
-(* what one builder call does: a few field assignments (fset / f_or), never to `length` and never to `checksum` *)
+(* what one call does: a few field assignments (fset / f_or), never to `length` and never to `checksum` *)
 Inductive touches : flds -> flds -> Prop :=
 | touch_refl f : touches f f
 | touch_set f f' i v : touches f f' -> i <> I_LENGTH -> i <> I_FLAGS -> touches f (fset f' i v).
@@ -134,33 +135,90 @@ Qed.
 
 Ltac touch := repeat (apply touch_set; [|discriminate|discriminate]); apply touch_refl.
 
-(* every builder call other than flag() is a sequence of assignments away from `length` and `flags`;
-   flag(i) is flags |= bits(i) and nothing else *)
+(* the table of directly assignable scalar fields: entry 35 is `flags` (a dword), no entry is `length` *)
+Lemma assignable_spec : forall n i w, nth_error FADT_ASSIGNABLE n = Some (i, w) ->
+  (n = 35%nat /\ i = I_FLAGS /\ w = 4%nat) \/ (n <> 35%nat /\ i <> I_LENGTH /\ i <> I_FLAGS).
+Proof.
+  intros n.
+  do 42 (destruct n as [|n];
+         [cbn [nth_error FADT_ASSIGNABLE]; intros i w Hn; inversion Hn; subst i w; clear Hn;
+          ((left; repeat split; reflexivity) || (right; repeat split; discriminate))|]).
+  intros i w Hn. destruct n; discriminate Hn.
+Qed.
+
+(* the GAS-typed fields start after `flags` *)
+Lemma gas_fields_spec : forall n i, nth_error FADT_GAS_FIELDS n = Some i -> (68 <= i)%nat.
+Proof.
+  intros n.
+  do 11 (destruct n as [|n]; [cbn [nth_error FADT_GAS_FIELDS]; intros i Hn; inversion Hn; subst i; clear Hn; lia|]).
+  intros i Hn. destruct n; discriminate Hn.
+Qed.
+
+(* the direct assignment of the `flags` field *)
+Definition FLAGS_K : N := 35.
+
+Lemma fadt_assign_m_cases f k v f' : fadt_assign_m f k v = Some f' ->
+  (k = FLAGS_K /\ f' = fset f I_FLAGS (v mod 2 ^ 32)) \/ (k <> FLAGS_K /\ touches f f').
+Proof.
+  unfold fadt_assign_m. destruct (nth_error FADT_ASSIGNABLE (N.to_nat k)) as [[i w]|] eqn:En; [|discriminate].
+  intros Hs; inversion Hs; subst f'; clear Hs.
+  destruct (assignable_spec _ _ _ En) as [(Hn & Hi & Hw)|(Hn & H1 & H2)].
+  - left. subst i w. split; [|reflexivity].
+    apply (f_equal N.of_nat) in Hn. rewrite N2Nat.id in Hn. exact Hn.
+  - right. split.
+    + intros Hk. apply Hn. rewrite Hk. reflexivity.
+    + apply touch_set; [apply touch_refl|exact H1|exact H2].
+Qed.
+
+Lemma fadt_assign_gas_m_touches f g sp bw bo ac addr f' : fadt_assign_gas_m f g sp bw bo ac addr = Some f' -> touches f f'.
+Proof.
+  unfold fadt_assign_gas_m. destruct (nth_error FADT_GAS_FIELDS (N.to_nat g)) as [i|] eqn:En; [|discriminate].
+  intros Hs; inversion Hs; subst f'; clear Hs. pose proof (gas_fields_spec _ _ En) as Hi.
+  cbn [gas_new gas_mk fvals map snd F fset_seq].
+  repeat (apply touch_set; [|unfold I_LENGTH; lia|unfold I_FLAGS; lia]). apply touch_refl.
+Qed.
+
+(* every call other than flag() and the direct assignment of `flags` is a sequence of assignments away from `length` and
+   `flags`; flag(i) is flags |= bits(i) and nothing else; `b.flags = v` is that assignment and nothing else *)
 Lemma fadt_builder_cases f o f' : fadt_builder f o = Some f' ->
-  ((forall i, o <> SL [SA 7; SA i]) /\ touches f f') \/
-  exists i b, o = SL [SA 7; SA i] /\ flag_bits i = Some b /\ f' = f_or f I_FLAGS b.
+  ((forall i, o <> SL [SA 7; SA i]) /\ (forall v, o <> SL [SA 10; SA FLAGS_K; SA v]) /\ touches f f') \/
+  (exists i b, o = SL [SA 7; SA i] /\ flag_bits i = Some b /\ f' = f_or f I_FLAGS b) \/
+  (exists v, o = SL [SA 10; SA FLAGS_K; SA v] /\ f' = fset f I_FLAGS (v mod 2 ^ 32)).
 Proof.
   unfold fadt_builder. intros H.
   repeat match type of H with
          | match ?x with _ => _ end = Some _ => destruct x; try discriminate
          end;
-  try (inversion H; subst; clear H; left; split; [intros i0 E; discriminate E | touch]).
-  right. match type of H with option_bind (flag_bits ?i) _ = _ => destruct (flag_bits i) as [b|] eqn:Eb; [|discriminate] end.
-  cbn [option_bind] in H. inversion H; subst. repeat eexists. exact Eb.
+  try (inversion H; subst; clear H; left; split; [intros i0 E; discriminate E |split; [intros v0 E; discriminate E | touch]]).
+  all: lazymatch type of H with
+       | option_bind (flag_bits ?i) _ = _ =>                                    (* flag(i) *)
+           right; left; destruct (flag_bits i) as [b|] eqn:Eb; [|discriminate];
+           cbn [option_bind] in H; inversion H; subst; repeat eexists; exact Eb
+       | fadt_assign_m _ _ _ = _ =>                                             (* b.<field k> = v *)
+           destruct (fadt_assign_m_cases _ _ _ _ H) as [[Hk Hf]|[Hk T]];
+           [right; right; subst; eexists; split; reflexivity
+           |left; split; [intros i0 E; discriminate E|]; split; [|exact T];
+            intros v0 E; inversion E; congruence]
+       | fadt_assign_gas_m _ _ _ _ _ _ _ = _ =>                                 (* b.<gas g> = GAS::new(..) *)
+           left; split; [intros i0 E; discriminate E|]; split; [intros v0 E; discriminate E|];
+           eapply fadt_assign_gas_m_touches; eauto
+       end.
 Qed.
 
 Lemma fadt_builder_widths f o f' : fadt_builder f o = Some f' -> widths f' = widths f.
 Proof.
-  intros H. destruct (fadt_builder_cases f o f' H) as [[_ T]|(i & b & _ & _ & ->)].
+  intros H. destruct (fadt_builder_cases f o f' H) as [(_ & _ & T)|[(i & b & _ & _ & ->)|(v & _ & ->)]].
   - now apply touches_widths.
   - apply widths_f_or.
+  - apply widths_fset.
 Qed.
 
 Lemma fadt_builder_length_field f o f' : fadt_builder f o = Some f' -> fget f' I_LENGTH = fget f I_LENGTH.
 Proof.
-  intros H. destruct (fadt_builder_cases f o f' H) as [[_ T]|(i & b & _ & _ & ->)].
+  intros H. destruct (fadt_builder_cases f o f' H) as [(_ & _ & T)|[(i & b & _ & _ & ->)|(v & _ & ->)]].
   - apply (touches_keeps _ _ T).
   - rewrite f_or_fset. apply fget_fset_other. discriminate.
+  - apply fget_fset_other. discriminate.
 Qed.
 
 (* histories: the builder calls of a case applied in order (observation markers skipped) *)
@@ -248,6 +306,52 @@ Definition flag_call (o : sx) : list N :=
 
 Definition flag_calls (ops : list sx) : list N := concat (map flag_call ops).
 
+(* the value a direct assignment of the `flags` field (op (10 35 v)) gives it *)
+Definition flags_assigned (o : sx) : option N :=
+  match o with
+  | SL [SA 10; SA 35; SA v] => Some v
+  | _ => None
+  end.
+
+(* a history seen from the Flags field: (the value of the LAST direct assignment of `flags`, if there is one;
+   the operations made after that assignment -- all of them when there is none) *)
+Fixpoint flags_cut (ops : list sx) : option N * list sx :=
+  match ops with
+  | [] => (None, [])
+  | o :: r =>
+      match flags_cut r with
+      | (Some v, post) => (Some v, post)
+      | (None, _) => match flags_assigned o with Some v => (Some v, r) | None => (None, o :: r) end
+      end
+  end.
+
+Definition no_flags_assignment (ops : list sx) : Prop := forall o, In o ops -> flags_assigned o = None.
+
+Lemma flags_cut_none ops : no_flags_assignment ops -> flags_cut ops = (None, ops).
+Proof.
+  induction ops as [|o ops IH]; intros H; [reflexivity|]. cbn [flags_cut].
+  rewrite IH by (intros x Hx; apply H; now right). rewrite (H o) by now left. reflexivity.
+Qed.
+
+Lemma flags_cut_none_inv ops post : flags_cut ops = (None, post) -> post = ops /\ no_flags_assignment ops.
+Proof.
+  revert post. induction ops as [|o ops IH]; intros post H; cbn [flags_cut] in H.
+  - inversion H. split; [reflexivity|]. intros x [].
+  - destruct (flags_cut ops) as [[v|] p] eqn:E; [discriminate|].
+    destruct (flags_assigned o) as [v|] eqn:Ea; [discriminate|]. inversion H; subst post.
+    destruct (IH p eq_refl) as [_ Hn]. split; [reflexivity|].
+    intros x [<-|Hx]; [exact Ea|now apply Hn].
+Qed.
+
+(* the declarative reading of flags_cut: a history whose last direct assignment of `flags` is `flags = v`, followed by [post] *)
+Lemma flags_cut_last pre v post : no_flags_assignment post ->
+  flags_cut (pre ++ SL [SA 10; SA 35; SA v] :: post) = (Some v, post).
+Proof.
+  intros Hp. induction pre as [|o pre IH]; cbn [app flags_cut].
+  - rewrite (flags_cut_none post Hp). reflexivity.
+  - rewrite IH. reflexivity.
+Qed.
+
 Lemma flag_call_other o : (forall i, o <> SL [SA 7; SA i]) -> flag_call o = [].
 Proof.
   intros H. unfold flag_call.
@@ -257,13 +361,27 @@ Proof.
   exfalso. eapply H. reflexivity.
 Qed.
 
-(* one call: flag(i) ors its bits into the Flags field and changes no other field; every other builder keeps the field *)
-Lemma fadt_builder_flags f o f' : (I_FLAGS < length f)%nat -> fadt_builder f o = Some f' ->
-  fget f' I_FLAGS = fold_left N.lor (flag_call o) (fget f I_FLAGS).
+Lemma flags_assigned_other o : (forall v, o <> SL [SA 10; SA FLAGS_K; SA v]) -> flags_assigned o = None.
 Proof.
-  intros Hlen H. destruct (fadt_builder_cases f o f' H) as [[Hn T]|(i & b & -> & Eb & ->)].
-  - rewrite (flag_call_other o Hn). cbn [fold_left]. apply (touches_keeps _ _ T).
-  - cbn [flag_call]. rewrite Eb. cbn [fold_left]. rewrite f_or_fset. apply fget_fset_same. exact Hlen.
+  intros H. unfold flags_assigned.
+  repeat match goal with
+         | |- match ?x with _ => _ end = _ => destruct x; try reflexivity
+         end.
+  exfalso. eapply H. reflexivity.
+Qed.
+
+(* one call: `b.flags = v` gives the field the value v (as a u32); flag(i) ors its bits into the Flags field and changes no
+   other field; every other call and assignment keeps the field *)
+Lemma fadt_builder_flags f o f' : (I_FLAGS < length f)%nat -> fadt_builder f o = Some f' ->
+  fget f' I_FLAGS = match flags_assigned o with
+                    | Some v => v mod 2 ^ 32
+                    | None => fold_left N.lor (flag_call o) (fget f I_FLAGS)
+                    end.
+Proof.
+  intros Hlen H. destruct (fadt_builder_cases f o f' H) as [(Hn & Ha & T)|[(i & b & -> & Eb & ->)|(v & -> & ->)]].
+  - rewrite (flags_assigned_other o Ha), (flag_call_other o Hn). cbn [fold_left]. apply (touches_keeps _ _ T).
+  - cbn [flag_call flags_assigned]. rewrite Eb. cbn [fold_left]. rewrite f_or_fset. apply fget_fset_same. exact Hlen.
+  - cbn [flags_assigned]. apply fget_fset_same. exact Hlen.
 Qed.
 
 Theorem fadt_flag_frame f i f' : fadt_builder f (SL [SA 7; SA i]) = Some f' ->
@@ -274,19 +392,44 @@ Proof.
   inversion H; subst. rewrite f_or_fset. apply fget_fset_other. congruence.
 Qed.
 
-(* any history: the Flags field is the lor-fold of the bits of the flag() calls made, whatever else was called in between *)
+(* any history: the Flags field is the value of the last direct assignment of `flags` (as a u32; the field's initial value
+   when the history contains none) OR-ed with the bits of the flag() calls made after that assignment, whatever else was
+   called or assigned in between *)
 Theorem fadt_flag_law md ops : forall f f', (I_FLAGS < length f)%nat -> fadt_run md f ops = Some f' ->
-  fget f' I_FLAGS = fold_left N.lor (flag_calls ops) (fget f I_FLAGS).
+  fget f' I_FLAGS = fold_left N.lor (flag_calls (snd (flags_cut ops)))
+                              (match fst (flags_cut ops) with Some v => v mod 2 ^ 32 | None => fget f I_FLAGS end).
 Proof.
   induction ops as [|o ops IH]; intros f f' Hlen H; cbn [fadt_run] in H.
   - inversion H; subst. reflexivity.
-  - unfold flag_calls. cbn [map concat]. rewrite fold_left_app. fold (flag_calls ops).
-    destruct o as [n|l]; [cbn [flag_call fold_left]; now apply IH|].
-    destruct (fadt_step md f (SL l)) as [[f1 evs]|] eqn:E; [|discriminate].
-    apply fadt_step_builder in E.
-    rewrite <- (fadt_builder_flags f (SL l) f1 Hlen E).
-    apply IH; [|exact H]. rewrite <- !widths_length, (fadt_builder_widths _ _ _ E), widths_length. exact Hlen.
+  - assert (Hstep : exists f1, fadt_run md f1 ops = Some f' /\ (I_FLAGS < length f1)%nat /\
+                      fget f1 I_FLAGS = match flags_assigned o with
+                                        | Some v => v mod 2 ^ 32
+                                        | None => fold_left N.lor (flag_call o) (fget f I_FLAGS)
+                                        end).
+    { destruct o as [n|l]; [exists f; cbn [flags_assigned flag_call fold_left]; auto|].
+      destruct (fadt_step md f (SL l)) as [[f1 evs]|] eqn:E; [|discriminate].
+      apply fadt_step_builder in E. exists f1. split; [exact H|]. split.
+      - rewrite <- !widths_length, (fadt_builder_widths _ _ _ E), widths_length. exact Hlen.
+      - exact (fadt_builder_flags f (SL l) f1 Hlen E). }
+    destruct Hstep as (f1 & Hr & Hlen1 & Hf1). specialize (IH f1 f' Hlen1 Hr).
+    cbn [flags_cut]. destruct (flags_cut ops) as [[v|] post] eqn:Ec; cbn [fst snd] in *.
+    + exact IH.
+    + destruct (flags_cut_none_inv _ _ Ec) as [-> _].
+      destruct (flags_assigned o) as [v|]; cbn [fst snd].
+      * rewrite IH, Hf1. reflexivity.
+      * rewrite IH, Hf1. unfold flag_calls. cbn [map concat]. rewrite fold_left_app. reflexivity.
 Qed.
+
+(* the two readings of the law *)
+Corollary fadt_flag_law_no_assign md ops f f' : (I_FLAGS < length f)%nat -> fadt_run md f ops = Some f' ->
+  no_flags_assignment ops ->
+  fget f' I_FLAGS = fold_left N.lor (flag_calls ops) (fget f I_FLAGS).
+Proof. intros Hlen Hr Hn. rewrite (fadt_flag_law md ops f f' Hlen Hr), (flags_cut_none ops Hn). reflexivity. Qed.
+
+Corollary fadt_flag_law_after_assign md pre v post f f' : (I_FLAGS < length f)%nat ->
+  fadt_run md f (pre ++ SL [SA 10; SA 35; SA v] :: post) = Some f' -> no_flags_assignment post ->
+  fget f' I_FLAGS = fold_left N.lor (flag_calls post) (v mod 2 ^ 32).
+Proof. intros Hlen Hr Hn. rewrite (fadt_flag_law md _ f f' Hlen Hr), (flags_cut_last pre v post Hn). reflexivity. Qed.
 
 (* order and repetitions do not matter: the fold depends only on the set of bits *)
 Lemma lor_fold_testbit l : forall a n, N.testbit (fold_left N.lor l a) n = N.testbit a n || existsb (fun b => N.testbit b n) l.
@@ -300,6 +443,14 @@ Theorem lor_fold_set l l' a : (forall x, In x l <-> In x l') -> fold_left N.lor 
 Proof.
   intros Hs. apply N.bits_inj. intros n. rewrite !lor_fold_testbit. f_equal.
   apply eq_true_iff_eq. rewrite !existsb_exists. split; intros (x & Hx & Hb); exists x; split; auto; now apply Hs.
+Qed.
+
+(* truncating the starting value to the field's 32 bits first changes nothing of the truncated union *)
+Lemma lor_fold_mod32 l a : fold_left N.lor l (a mod 2 ^ 32) mod 2 ^ 32 = fold_left N.lor l a mod 2 ^ 32.
+Proof.
+  apply N.bits_inj. intros n. destruct (N.lt_ge_cases n 32) as [Hn|Hn].
+  - rewrite !N.mod_pow2_bits_low by exact Hn. rewrite !lor_fold_testbit, N.mod_pow2_bits_low by exact Hn. reflexivity.
+  - rewrite !N.mod_pow2_bits_high by exact Hn. reflexivity.
 Qed.
 
 Lemma fadt_new_flags c f : fadt_new c = Some f -> fget f I_FLAGS = 0.
@@ -318,25 +469,28 @@ Qed.
 (* C11 for the FADT in terms of the emitted bytes: the dword at offset 112 of the finalized image *)
 Theorem fadt_flags_in_image md c ops f0 f :
   fadt_new c = Some f0 -> fadt_run md f0 ops = Some f ->
-  field_at (fadt_image f) 112 4 = fold_left N.lor (flag_calls ops) 0 mod 2 ^ 32.
+  field_at (fadt_image f) 112 4 =
+  fold_left N.lor (flag_calls (snd (flags_cut ops))) (match fst (flags_cut ops) with Some v => v | None => 0 end) mod 2 ^ 32.
 Proof.
   intros Hn Hr. destruct (fadt_run_shape md ops f0 f Hr) as [Hw _].
   pose proof (fadt_new_widths _ _ Hn) as Hw0. rewrite Hw0 in Hw.
   pose proof (fadt_image_field f I_FLAGS Hw ltac:(vm_compute; lia) ltac:(discriminate)) as H.
   change (wsum (firstn I_FLAGS FADT_WIDTHS)) with 112%nat in H. change (nth I_FLAGS FADT_WIDTHS 0%nat) with 4%nat in H.
-  rewrite H. f_equal.
+  rewrite H. change (8 * N.of_nat 4) with 32.
   assert (Hlen : (I_FLAGS < length f0)%nat) by (rewrite <- widths_length, Hw0; vm_compute; lia).
-  rewrite (fadt_flag_law md ops f0 f Hlen Hr). now rewrite (fadt_new_flags _ _ Hn).
+  rewrite (fadt_flag_law md ops f0 f Hlen Hr), (fadt_new_flags _ _ Hn).
+  destruct (fst (flags_cut ops)) as [v|]; [apply lor_fold_mod32|reflexivity].
 Qed.
 
-(* two histories over the same constructor whose flag() calls cover the same set of bits end with the same Flags field,
-   whatever the order, the repetitions and the other calls *)
+(* two histories over the same constructor with the same last direct assignment of `flags` (or none) whose flag() calls after
+   it cover the same set of bits end with the same Flags field, whatever the order, the repetitions and the other calls *)
 Corollary fadt_flags_order md c ops ops' f0 f f' :
   fadt_new c = Some f0 -> fadt_run md f0 ops = Some f -> fadt_run md f0 ops' = Some f' ->
-  (forall b, In b (flag_calls ops) <-> In b (flag_calls ops')) ->
+  fst (flags_cut ops) = fst (flags_cut ops') ->
+  (forall b, In b (flag_calls (snd (flags_cut ops))) <-> In b (flag_calls (snd (flags_cut ops')))) ->
   fget f I_FLAGS = fget f' I_FLAGS.
 Proof.
-  intros Hn Hr Hr' Hs.
+  intros Hn Hr Hr' Hb Hs.
   assert (Hlen : (I_FLAGS < length f0)%nat) by (rewrite <- widths_length, (fadt_new_widths _ _ Hn); vm_compute; lia).
-  rewrite (fadt_flag_law md ops f0 f Hlen Hr), (fadt_flag_law md ops' f0 f' Hlen Hr'). now apply lor_fold_set.
+  rewrite (fadt_flag_law md ops f0 f Hlen Hr), (fadt_flag_law md ops' f0 f' Hlen Hr'), Hb. now apply lor_fold_set.
 Qed.
